@@ -223,8 +223,17 @@ def apply_transform(
     def new_forward(*args: Any, **kwargs: Any) -> Any:
         if module.rerun_transform:
             torch._dynamo.reset()
-            dynamo_module = torch._dynamo.optimize(backend)(module)
-            module.dynamo_forward = patch_to_expand_modules(dynamo_module.forward)
+            if type(module).__module__.startswith(("torch.nn.", "torch.ao.")):
+                # TorchDynamo does not trace the `forward()` of a `torch.nn` module
+                # (e.g. nn.Linear, nn.Sequential) when it is the outermost frame, so
+                # such a root module is entered through this (user-code) function
+                def call_module(*args: Any, **kwargs: Any) -> Any:
+                    return module(*args, **kwargs)
+
+                dynamo_forward = torch._dynamo.optimize(backend)(call_module)
+            else:
+                dynamo_forward = torch._dynamo.optimize(backend)(module).forward
+            module.dynamo_forward = patch_to_expand_modules(dynamo_forward)
             module.rerun_transform = False
         with patch.object(module, "forward", module.base_forward):
             return module.dynamo_forward(*args, **kwargs)
